@@ -35,6 +35,8 @@ func checkC01(p *Prog, r *Report) {
 	c01Sweeps(p, r)
 	constantLevelRule(p, r, "C01.R7")
 	c01ReportingDepth(p, r, "C01.R8")
+	// the balance a user takes from the result files closes only if the writer prints the terms as computed (shared with C05.R11)
+	recordValueRule(p, r, "C01.R9")
 }
 
 // resolvePhi substitutes φ atoms of q by the value of arm k.
